@@ -56,6 +56,7 @@ public:
   bool readToken();
 
   void skipSpace();
+  void skipComment();
 
   void syntaxError(const Position& pos, const String& error);
 
@@ -158,40 +159,7 @@ void Xml::Private::skipSpace()
     case '<':
       if(String::compare(pos.pos + 1, "!--", 3) == 0)
       {
-        pos.pos += 4;
-        for(;;)
-        {
-          const char* end = String::findOneOf(pos.pos, "-\n\r");
-          if(!end)
-          {
-            pos.pos = pos.pos + String::length(pos.pos);
-            return;
-          }
-          pos.pos = end;
-          switch(*pos.pos)
-          {
-          case '\r':
-            if(*(++pos.pos) == '\n')
-              ++pos.pos;
-            ++pos.line;
-            pos.lineStart = pos.pos;
-            continue;
-          case '\n':
-            ++pos.line;
-            ++pos.pos;
-            pos.lineStart = pos.pos;
-            continue;
-          default:
-            if(String::compare(pos.pos + 1, "->", 2) == 0)
-            {
-              pos.pos = end + 3;
-              break;
-            }
-            ++pos.pos;
-            continue;
-          }
-          break;
-        }
+        skipComment();
         continue;
       }
     default:
@@ -200,6 +168,43 @@ void Xml::Private::skipSpace()
       else
         return;
     }
+}
+
+void Xml::Private::skipComment()
+{
+  pos.pos += 4; // <!--
+  for(;;)
+  {
+    const char* end = String::findOneOf(pos.pos, "-\n\r");
+    if(!end)
+    {
+      pos.pos = pos.pos + String::length(pos.pos);
+      return;
+    }
+    pos.pos = end;
+    switch(*pos.pos)
+    {
+    case '\r':
+      if(*(++pos.pos) == '\n')
+        ++pos.pos;
+      ++pos.line;
+      pos.lineStart = pos.pos;
+      continue;
+    case '\n':
+      ++pos.line;
+      ++pos.pos;
+      pos.lineStart = pos.pos;
+      continue;
+    default:
+      if(String::compare(pos.pos + 1, "->", 2) == 0)
+      {
+        pos.pos = end + 3;
+        return;
+      }
+      ++pos.pos;
+      continue;
+    }
+  }
 }
 
 void Xml::Private::syntaxError(const Position& pos, const String& error)
@@ -426,7 +431,13 @@ bool Xml::Private::parseText(String& text)
       {
         String escapedText;
         escapedText.attach(start, pos.pos - start);
-        text = unescapeString(escapedText);
+        text.append(unescapeString(escapedText));
+      }
+      if(String::compare(pos.pos + 1, "!--", 3) == 0)
+      { // a comment next to or inside the text: skip it and go on with the text behind it
+        skipComment();
+        start = pos.pos;
+        continue;
       }
       return true;
     }
